@@ -440,3 +440,55 @@ def rule_zerocmp(repo, rid, modules, floor=20):
                                 '"nothing to do" side and keep a wrong result; the kernels switch regimes at eps against a limit formula, never at 0' % src(c)[:50], node=c,
                                 construct='exact-zero test|' + norm_construct(c, f.node)))
     return res
+
+
+# ---------------------------------------------------------------- FLATCAT: pieces flattened, concatenated, re-viewed as a matrix
+
+def flatcat_views(fnode):
+    """[(view call, cat call)]: `torch.cat([.. p.flatten() ..]).view(-1, n)` - several blocks are flattened to one dimension, concatenated, and the result is
+    re-viewed as a matrix.  The rows of the matrix are then consecutive runs of n numbers of the concatenation, not the rows of the blocks placed side by side: with two
+    or more blocks of more than one row each the rows interleave (the shape is right, nothing raises)."""
+    def is_flat(e):
+        if isinstance(e, ast.Call) and isinstance(e.func, ast.Attribute):
+            if e.func.attr in ('flatten', 'ravel') and not e.args and not e.keywords:
+                return True
+            if e.func.attr in ('reshape', 'view') and len(e.args) == 1 and isinstance(e.args[0], ast.UnaryOp) and isinstance(e.args[0].operand, ast.Constant) and e.args[0].operand.value == 1:
+                return True
+        if isinstance(e, ast.Call) and (dotted(e.func) or '') in ('torch.flatten', 'torch.ravel') and len(e.args) == 1:
+            return True
+        return False
+    out = []
+    for v in ast.walk(fnode):
+        if not (isinstance(v, ast.Call) and isinstance(v.func, ast.Attribute) and v.func.attr in ('view', 'reshape') and len(v.args) >= 2):
+            continue
+        c = v.func.value
+        if not (isinstance(c, ast.Call) and (dotted(c.func) or '') in ('torch.cat', 'torch.concat', 'torch.concatenate', 'torch.hstack') and c.args):
+            continue
+        a = c.args[0]
+        pieces = a.elts if isinstance(a, (ast.List, ast.Tuple)) else [a.elt] if isinstance(a, (ast.ListComp, ast.GeneratorExp)) else []
+        many = isinstance(a, (ast.ListComp, ast.GeneratorExp)) or len(pieces) > 1
+        if many and pieces and all(is_flat(p) for p in pieces):
+            out.append((v, c))
+    return out
+
+
+@guarded
+def rule_flatcat(repo, rid, modules):
+    from .core import RuleResult, Finding
+    res = RuleResult(rid, 'no matrix is obtained by re-viewing a concatenation of FLATTENED blocks (`cat([b.flatten() ..]).view(-1, n)`): blocks placed side by side are '
+                     'reshaped to their own (rows, columns) first and concatenated along the column axis', floor=1)
+    k = 0
+    for m in modules:
+        for f in repo.module(m).functions.values():
+            k += 1
+            for v, c in flatcat_views(f.node):
+                res.inst({'function': f.fq, 'view': src(v)[:70]}, (f.fq, src(v)[:40]))
+                res.add(Finding(rid, f, '`%s` re-views a concatenation of flattened blocks as a matrix: with two or more blocks of more than one row the rows of neighbouring '
+                                'blocks interleave' % src(v)[:80], node=v, construct='flattened blocks re-viewed'))
+    res.inst({'functions scanned': k}, 'scan')
+    fx = [ast.parse(t).body[0] for t in (
+        "def f(J, ps):\n    n = sum(p.numel() for p in ps)\n    return torch.cat([j.flatten() for j in J]).view(-1, n)\n",
+        "def f(J, ps):\n    return torch.cat([j.view(-1, p.numel()) for j, p in zip(J, ps)], dim=1)\n")]
+    if [len(flatcat_views(x)) for x in fx] != [1, 0]:
+        raise AnalysisError('%s: fixture no longer classified' % rid)
+    return res
